@@ -3,6 +3,7 @@ C15 — buffer size accounting is exact and the capacity of a backend-wide conte
 -/
 import SC.Lemmas.BufSize
 import SC.Lemmas.BufCap
+import SC.Lemmas.BufBound
 namespace SC.Props
 open SC SC.B
 
@@ -21,6 +22,30 @@ theorem C15_size_exact (fam : Fam) (strategy : Buffering) (fl : List ((Int × Na
 /-- the same as a one-step invariant (for every state, not only reachable ones) -/
 theorem C15_size_step (s : B.State) (st : Step) (h : SizeOK s) : SizeOK (step s st) :=
   (keeps_step s st).2.2 h
+
+/-- C15, bound and zero: in every state reachable from the initial state of a buffered class
+(either strategy) by ANY history, once the operation has returned
+* the reported size does not exceed the capacity in force, and
+* if no buffered context is active — the backend-wide counter is 0 and no object is inside its
+  `buffered` context — the buffer holds no file and the size is 0.
+Both follow from the invariant `Good` (`SC/Lemmas/BufBound.lean`): exact accounting, plus "every
+buffered file has a registered object that is currently buffered", plus the bound; a forced flush
+leaves size 0 (`forced_flush_zero`) because it flushes every registered object. -/
+theorem C15_bounded_and_zero_outside (fam : Fam) (strategy : Buffering) (fl : List ((Int × Nat) × Nat))
+    (hst : strategy ≠ .none) (history : List Step) :
+    let s := run (B.State.init fam strategy fl) history
+    s.size ≤ s.capacity ∧
+    (s.ctx = 0 → (∀ o ∈ s.objs, o.buffered = 0) → s.entries = [] ∧ s.size = 0) := by
+  have h := good_run _ history (good_init fam strategy fl hst)
+  exact ⟨h.2.2.2, fun hc ho => zero_outside _ h hc ho⟩
+
+/-- the same as a one-step invariant, for every good state (not only reachable ones) -/
+theorem C15_good_step (s : B.State) (st : Step) (h : Good s) : Good (step s st) := good_step s st h
+
+/-- C15: a capacity-forced flush empties the accounting: whatever the capacity, the size after
+`_flush_buffer(force=True)` is 0 -/
+theorem C15_forced_flush_zero (s : B.State) (h : Good s) : (flushBuffer s true).1.size = 0 :=
+  forced_flush_zero s h.1 h.2.2.1.weak ((keeps_flushBuffer s true).2.2 h.2.1)
 
 /-- C15, capacity: `buffer_backend(cap)` pushes the capacity in force ... -/
 theorem C15_enter_pushes (s : B.State) (cap : Option Nat) :
@@ -46,6 +71,18 @@ example :
       [.openObj true 0 none, .enterCls (some 0), .call (.root 0) (.dSetitem (.s "a") (.leaf (.int 1))),
        .call (.root 0) (.dSetitem (.s "b") (.leaf (.int 2)))]
     s.size = 0 ∧ s.entries.length = 1 ∧ (s.store 0).isSome = true := by
+  decide
+
+/-- non-vacuity of the zero-outside clause: a history that buffers two files inside nested contexts
+(one file over the capacity of the inner context) ends outside every context with an empty
+buffer, size 0 and both files written -/
+example :
+    let fam : Fam := ⟨[.requireStringKey, .jsonFormat], [.requireStringKey, .jsonFormat]⟩
+    let s := run (B.State.init fam .sharedMemory [])
+      [.openObj true 0 none, .openObj false 1 none, .enterCls none, .enterObj 1,
+       .call (.root 0) (.dSetitem (.s "a") (.leaf (.int 1))), .enterCls (some 0),
+       .call (.root 1) (.lAppend (.leaf (.int 2))), .exitCls, .exitObj 1, .exitCls]
+    s.ctx = 0 ∧ s.entries.length = 0 ∧ s.size = 0 ∧ (s.store 0).isSome = true ∧ (s.store 1).isSome = true := by
   decide
 
 end SC.Props
